@@ -151,6 +151,34 @@ func cmdCheck(args []string) {
 		results = append(results, r)
 		cc.Funcs = append(cc.Funcs, k)
 	}
+	// every contract applied at a call site of these functions is assumed there with the clauses active for this
+	// property, so the callee is verified for this property too (transitively), whatever its own property tags
+	done := map[string]bool{}
+	for _, r := range results {
+		done[r.Key] = true
+	}
+	for changed := true; changed; {
+		changed = false
+		var ks []string
+		for k := range p.usedContracts {
+			if !done[k] {
+				ks = append(ks, k)
+			}
+		}
+		sort.Strings(ks)
+		for _, k := range ks {
+			done[k] = true
+			c := p.contracts.get(k)
+			f := p.byKey[k]
+			if c == nil || c.Assumed || f == nil {
+				continue
+			}
+			changed = true
+			r := p.verifyFunction(f, c)
+			results = append(results, r)
+			cc.Funcs = append(cc.Funcs, k+" (callee contract applied during this check)")
+		}
+	}
 	solveAll(results, *timeout, 16)
 	for _, r := range results {
 		if r.Unsupported != "" {
